@@ -45,3 +45,25 @@ package meta
 //@   props C16
 //@   ensures exact: result == (ui.Admin || privilege == influxql.NoPrivileges || (has(ui.Privileges, database) && (ui.Privileges[database] == privilege || ui.Privileges[database] == influxql.AllPrivileges)))
 //@   modifies nothing
+
+// ---- C16.2: a query is authorised only if the user's grants cover every required privilege ----
+
+//@ pure grants(u, priv, db) = u.Admin || priv == influxql.NoPrivileges || (has(u.Privileges, db) && (u.Privileges[db] == priv || u.Privileges[db] == influxql.AllPrivileges))
+//@ pure privs_of(s) = cast(influxql.ExecutionPrivileges, req_privs(s))
+//@ pure priv_ok(u, p, database) = !p.Admin && grants(u, p.Privilege, ite(p.Name == "", database, p.Name))
+
+//@ func (*QueryAuthorizer).AuthorizeQuery
+//@   props C16
+//@   requires q != nil
+//@   requires a.Client != nil
+//@   requires a.Client.cacheData != nil
+//@   requires no_typed_nil_user: u == nil || ival(u) != 0
+//@   requires stmts_non_nil: all(s, 0, len(q.Statements), q.Statements[s] != nil && ival(q.Statements[s]) != 0)
+//@   ghost nousers bool = false
+//@   at after Client.UserCount#1: ghost nousers = callresult == 0
+//@   loop 1 invariant checked: all(s, 0, rangeindex+1, all(j, 0, len(privs_of(q.Statements[s])), priv_ok(cast(UserInfo, ival(u)), privs_of(q.Statements[s])[j], database)))
+//@   loop 2 invariant checked_inner: all(j, 0, rangeindex+1, priv_ok(user, privs[j], database))
+//@   ensures bootstrap_only_admin_creation: nousers && result1 == nil ==> len(q.Statements) == 1
+//@   ensures bootstrap_needs_create_admin: nousers && result1 == nil ==> len(q.Statements) >= 1 && typeis(q.Statements[0], "*influxql.CreateUserStatement")
+//@   ensures needs_user: !nousers && result1 == nil ==> typeis(u, "*meta.UserInfo") && ival(u) != 0
+//@   ensures grants_cover: !nousers && result1 == nil ==> cast(UserInfo, ival(u)).Admin || all(s, 0, len(q.Statements), all(j, 0, len(privs_of(q.Statements[s])), priv_ok(cast(UserInfo, ival(u)), privs_of(q.Statements[s])[j], database)))
